@@ -380,11 +380,10 @@ def check(ctx):
             if st_:
                 cp = _cache_protocol(prog, results, f, st_)
                 if cp is None:
-                    ctx.unrecognised(
+                    ctx.undecidable(
                         "C08.7", f, f"{f.qualname} stores "
                         f"{st_[0].data['name']} on the object in a form "
-                        f"that is not a recognised cache",
-                        key=f"C08.7:{f.qualname}:cached")
+                        f"that is not a recognised cache")
                 else:
                     ctx.ob("C08.7", f, cp[0], cp[1],
                            key=f"C08.7:{f.qualname}:cached")
@@ -453,14 +452,29 @@ def _cache_protocol(prog, results, f, st_):
     if c in VIEWS or c in ("timestamps", "meta"):
         return None
 
-    def has(obj):
-        return tm.call(tm.glob("builtins.hasattr"), (obj, const(c)), ())
+    def filled(obj):
+        """assignment for "the cache of obj holds a value": hasattr(obj, c),
+        obj.c is not None, getattr(obj, c, None) is not None"""
+        h = tm.call(tm.glob("builtins.hasattr"), (obj, const(c)), ())
+        held = (tm.attr(obj, c),
+                tm.call(tm.glob("builtins.getattr"),
+                        (obj, const(c), tm.NONE), ()))
+
+        def assign(t: T):
+            if t is h:
+                return True
+            if t.op == "cmp" and t.args[0] in ("Is", "IsNot", "Eq",
+                                               "NotEq") and \
+                    t.args[2] is tm.NONE and any(t.args[1] is x
+                                                 for x in held):
+                return t.args[0] in ("IsNot", "NotEq")
+            return None
+        return assign
     sets = [e for e in st_ if e.kind == "setattr"]
     if not sets or len(sets) != len(st_):
         return None
     for e in sets:
-        if tm.fold(e.live, lambda t: True if t is has(selfp) else None) \
-                is not False:
+        if tm.fold(e.live, filled(selfp)) is not False:
             return None          # not a fill-when-absent store
     v = sets[0].data["value"]
     deps = set()
@@ -475,19 +489,48 @@ def _cache_protocol(prog, results, f, st_):
     # operations that always drop the cache (helpers like _flush_...() that
     # were added with it are looked through by the interpreter anyway)
     def drops(r, sp):
-        return [e for e in r.of_kind("delattr")
-                if e.data["base"] is sp and e.data["name"] == c]
+        return [e for e in r.of_kind("delattr", "setattr")
+                if e.data["base"] is sp and e.data["name"] == c and
+                (e.kind == "delattr" or e.data["value"] is tm.NONE)]
+    # the methods as they run on an object of the class that owns the cache
+    # (and of its subclasses): self.hook() dispatches to the override there
+    owner = f.cls
+    receivers = [prog.classes[cq] for cq in (PATH, TRAJ)
+                 if prog.is_subclass(cq, owner.qualname)]
+    for recv_cls in receivers:
+        v = _cache_protocol_for(prog, f, c, deps, filled, drops, recv_cls)
+        if v is not None:
+            return v
+    return (True, f"{f.qualname} caches its result in {c}; every operation "
+                  f"that rebinds {sorted(deps)} drops it afterwards (on "
+                  f"{[k.name for k in receivers]} objects)")
+
+
+def _cache_protocol_for(prog, f, c, deps, filled, drops, recv_cls):
+    import ast as _ast
+    from ..lib import implies
     flushers = set()
-    methods = [m for cq in (PATH, TRAJ)
-               for m in prog.classes[cq].methods.values()
-               if m is not f and m.name != "__init__" and not m.is_property
-               and m.qualname in results]
+    names = []
+    for k in prog.mro(recv_cls):
+        for n_ in k.methods:
+            if n_ not in names:
+                names.append(n_)
+    methods = []
+    runs = {}
+    for n_ in names:
+        m = prog.find_method(recv_cls, n_)
+        if m is None or m is f or m.name == "__init__" or m.is_property \
+                or not m.params or m.is_static:
+            continue
+        methods.append(m)
+        runs[m.qualname] = Interp(prog).run(m, self_cls=recv_cls)
+    results = runs
     for m in methods:
         sp = tm.param(m.params[0]) if m.params else None
         if sp is None:
             continue
-        if any(tm.fold(d.live, lambda t: True if t is has(sp) else None)
-               is True for d in drops(results[m.qualname], sp)):
+        if any(tm.fold(d.live, filled(sp)) is True
+               for d in drops(results[m.qualname], sp)):
             flushers.add(m.name)
     for m in methods:
         if not m.params:
@@ -514,8 +557,7 @@ def _cache_protocol(prog, results, f, st_):
             for d, ordered in D:
                 if ordered and d.idx < w.idx:
                     continue
-                if implies(w.live, d.live, given=lambda t: True
-                           if t is has(sp) else None) is True:
+                if implies(w.live, d.live, given=filled(sp)) is True:
                     ok = True
                     break
             if not ok:
@@ -524,9 +566,7 @@ def _cache_protocol(prog, results, f, st_):
                         f"{m.qualname} rebinds {w.data['name']} at "
                         f"{w.where} without dropping {c} afterwards: the "
                         f"next call returns the value of the old poses")
-    return (True, f"{f.qualname} caches its result in {c}; every operation "
-                  f"that rebinds {sorted(deps)} drops it afterwards "
-                  f"({len(methods)} methods checked)")
+    return None
 
 
 def _is_bool_param(m: Function, p: str) -> bool:
